@@ -137,5 +137,51 @@ theorem concretizes2_of_concretizeRequest (pr : PartialResponse) (σ : Mapper) (
     | set vs => simp [throw, throwThe, MonadExceptOf.throw] at h
     | ext x => simp [throw, throwThe, MonadExceptOf.throw] at h
 
+/-! ### calls of the `unknown` extension function in the policy text -/
+
+/-- read a literal `unknown("s")` call as the untyped unknown node it creates (`create_new_unknown`); everything else
+    unchanged.  This is the only reading under which such a policy has a concrete counterpart: `Expr::substitute` replaces
+    unknown *nodes*, never the call. -/
+def isUnkCall (fn : String) (args : List Expr) : Option String :=
+  if fn = "unknown" then
+    match args with
+    | [.lit (.string s)] => some s
+    | _ => none
+  else none
+
+mutual
+def desugarUnk : Expr → Expr
+  | .lit p => .lit p
+  | .var v => .var v
+  | .slot s => .slot s
+  | .unknown n ty => .unknown n ty
+  | .ite c t e => .ite (desugarUnk c) (desugarUnk t) (desugarUnk e)
+  | .and a b => .and (desugarUnk a) (desugarUnk b)
+  | .or a b => .or (desugarUnk a) (desugarUnk b)
+  | .unaryApp op a => .unaryApp op (desugarUnk a)
+  | .binaryApp op a b => .binaryApp op (desugarUnk a) (desugarUnk b)
+  | .call fn args => match isUnkCall fn args with
+    | some s => .unknown s none
+    | none => .call fn (desugarUnkList args)
+  | .getAttr e a => .getAttr (desugarUnk e) a
+  | .hasAttr e a => .hasAttr (desugarUnk e) a
+  | .like e p => .like (desugarUnk e) p
+  | .is e ty => .is (desugarUnk e) ty
+  | .set xs => .set (desugarUnkList xs)
+  | .record kvs => .record (desugarUnkKVs kvs)
+def desugarUnkList : List Expr → List Expr
+  | [] => []
+  | x :: xs => desugarUnk x :: desugarUnkList xs
+def desugarUnkKVs : List (String × Expr) → List (String × Expr)
+  | [] => []
+  | (k, x) :: xs => (k, desugarUnk x) :: desugarUnkKVs xs
+end
+
+/-- the first pass turns a literal `unknown("s")` call into the untyped unknown node, for every mapper, request, store and
+    budget ≥ 2 — WITHOUT consulting the mapper (`efunc.call` returns the residual directly) -/
+theorem pinterp_unknownCall (m : Mapper) (preq : PRequest) (pes : PEntities) (env : SlotEnv) (n : Nat) (s : String) :
+    pinterp m preq pes env (n + 2) (.call "unknown" [.lit (.string s)]) = .res (.unknown s none) := by
+  simp [pinterp, collectPV, splitPV, pcallExt, Value.asString, Except.map]
+
 end PS
 end Cedar
